@@ -462,6 +462,8 @@ def run_check(pid, mod, tier, seed, t0):
         "obligations": len(obs),
         "discharged": sum(1 for o in obs if o["discharged"]),
         "obligation_names": [o["name"] for o in obs],
+        "print_assumptions": {o["name"]: ("Closed under the global context" if o["assumptions"] == [] else
+                                          ("not compiled" if o["assumptions"] is None else o["assumptions"])) for o in obs},
         "checker_cmd": "cd coq && make %s && coqc -Q . Curtsies %s   (Print Assumptions under every theorem%s)" % (
             " ".join(targets), mod.PROPS_FILE, "; coqchk -o in this run" if coqchk_out else ""),
         "trusted_base": list(mod.TRUSTED),
